@@ -357,6 +357,23 @@ Proof.
   rewrite (proj2 (cells_or_nil_spec strained_lv wf_strained)). unfold strained_lv at 2. cbn [lv_fabs]. rewrite map_length. reflexivity.
 Qed.
 
+(* a box stays in the file of the same name *)
+Lemma strained_names : map fst (cells_or_nil strained_lv) = map fst (cells_or_nil lv).
+Proof.
+  rewrite cells_strained. fold cells. rewrite cells_eq, !map_map. apply map_ext_in. intros i Hi. apply in_seq in Hi.
+  set (name := fst (loc_of lv i)).
+  assert (Hname : In name (np_unique (map fst cells))).
+  { apply np_unique_In. rewrite names_eq. apply in_map_iff. exists i. split; [reflexivity | apply in_seq; lia]. }
+  assert (Hin : In i (asc name)) by (apply asc_spec; split; [lia | reflexivity]).
+  destruct (pos_in_complete i _ 0%nat Hin) as [k Hk].
+  destruct (pos_in_spec _ _ _ Hk) as [Hnth Hkl].
+  pose proof (locate_nth strained_lv wf_strained name (asc name) (strained_files_In name Hname) k Hkl) as Hloc.
+  rewrite Hnth in Hloc. unfold loc_of at 1. rewrite Hloc. reflexivity.
+Qed.
+
+Lemma cells_strained_length : length (cells_or_nil strained_lv) = n.
+Proof. rewrite cells_strained, map_length, seq_length. reflexivity. Qed.
+
 Theorem strain_level_spec :
   strain_level (lv_disk lv) c nvars kept = Some (lv_disk strained_lv, map snd (cells_or_nil strained_lv)).
 Proof.
